@@ -85,6 +85,12 @@ impl Issuer {
 	/// Issues a leaf for the SPKI and SAN of a CSR; returns the PEM chain with
 	/// `chain_len` certificates (leaf first).
 	pub fn issue(&self, spki_der: &[u8], san: &[GeneralName], not_before_s: i64, not_after_s: i64, chain_len: usize) -> Result<Vec<u8>, String> {
+		let now = std::time::SystemTime::now().duration_since(std::time::UNIX_EPOCH).unwrap().as_secs() as i64;
+		self.issue_abs(spki_der, san, now + not_before_s, now + not_after_s, chain_len)
+	}
+
+	/// same with absolute validity bounds (seconds since the epoch)
+	pub fn issue_abs(&self, spki_der: &[u8], san: &[GeneralName], not_before: i64, not_after: i64, chain_len: usize) -> Result<Vec<u8>, String> {
 		let pubkey = PKey::public_key_from_der(spki_der).map_err(|e| format!("CSR public key: {e}"))?;
 		let mut b = X509Builder::new().map_err(|e| e.to_string())?;
 		b.set_version(2).map_err(|e| e.to_string())?;
@@ -93,8 +99,8 @@ impl Issuer {
 		b.set_subject_name(&name).map_err(|e| e.to_string())?;
 		b.set_issuer_name(self.certs[0].subject_name()).map_err(|e| e.to_string())?;
 		b.set_pubkey(&pubkey).map_err(|e| e.to_string())?;
-		b.set_not_before(&*time_at(not_before_s)?).map_err(|e| e.to_string())?;
-		b.set_not_after(&*time_at(not_after_s)?).map_err(|e| e.to_string())?;
+		b.set_not_before(&*Asn1Time::from_unix(not_before).map_err(|e| e.to_string())?).map_err(|e| e.to_string())?;
+		b.set_not_after(&*Asn1Time::from_unix(not_after).map_err(|e| e.to_string())?).map_err(|e| e.to_string())?;
 		b.append_extension(BasicConstraints::new().build().map_err(|e| e.to_string())?).map_err(|e| e.to_string())?;
 		if !san.is_empty() {
 			let mut s = SubjectAlternativeName::new();
